@@ -1,6 +1,7 @@
 package main
 
 import (
+	"encoding/hex"
 	"fmt"
 	"go/types"
 	"regexp/syntax"
@@ -325,15 +326,27 @@ func registerStrings(e *Engine) {
 			return nil
 		}
 		arr := sl.arr.val.(*ArrayV)
-		// insertion sort with symbolic comparisons (forks on each undecided comparison)
-		for i := 1; i < sl.len; i++ {
-			for j := i; j > 0; j-- {
-				a, c := arr.E[sl.off+j-1].(*Str), arr.E[sl.off+j].(*Str)
-				if in.branch(in.str.Lt(c, a)) {
-					arr.E[sl.off+j-1], arr.E[sl.off+j] = c, a
-				} else {
-					break
+		// bubble network of compare-exchange steps: no forks; each step merges with ite
+		for i := 0; i < sl.len; i++ {
+			for j := 0; j+1 < sl.len-i; j++ {
+				a, c := arr.E[sl.off+j].(*Str), arr.E[sl.off+j+1].(*Str)
+				lt := in.str.Lt(c, a)
+				if lt.IsFalse() {
+					continue
 				}
+				if lt.IsTrue() {
+					arr.E[sl.off+j], arr.E[sl.off+j+1] = c, a
+					continue
+				}
+				if a.Cap() > 48 || c.Cap() > 48 {
+					// long strings: fork instead of building wide ites
+					if in.branch(lt) {
+						arr.E[sl.off+j], arr.E[sl.off+j+1] = c, a
+					}
+					continue
+				}
+				arr.E[sl.off+j] = in.str.Ite(lt, c, a)
+				arr.E[sl.off+j+1] = in.str.Ite(lt, a, c)
 			}
 		}
 		return nil
@@ -427,13 +440,24 @@ func registerStrings(e *Engine) {
 	})
 	reg("encoding/hex.EncodeToString", func(in *Interp, _ *frame, _ *ssa.Function, args []Value, pos tokenPos) Value {
 		s := in.toStrArg(args[0], pos)
-		return in.ufStr("hex.enc", 0, 2*s.Cap(), in.isCleanByte, []*Str{s}, nil)
+		if c, ok := s.Concrete(); ok {
+			return in.str.Const(hex.EncodeToString([]byte(c)))
+		}
+		res := in.ufStr("hex.enc", 0, 2*s.Cap(), in.isCleanByte, []*Str{s}, nil)
+		// the encoding of an empty input is empty
+		in.constrain(in.b.Eq(in.b.Eq(in.str.Len(s), in.b.BV(0, 64)), in.b.Eq(in.str.Len(res), in.b.BV(0, 64))))
+		in.regInverse(res, invRec{kind: "hex", s: s})
+		return res
 	})
 	reg("encoding/hex.DecodeString", func(in *Interp, _ *frame, _ *ssa.Function, args []Value, pos tokenPos) Value {
 		s := args[0].(*Str)
 		if c, ok := s.Concrete(); ok && c == "" {
 			// hex.DecodeString("") returns a non-nil empty slice
 			return TupleV{E: []Value{BytesV{S: &Str{}}, IfaceV{}}}
+		}
+		if r, found := in.lookupInverse(s, "hex"); found {
+			// DecodeString(EncodeToString(x)) == x (never nil)
+			return TupleV{E: []Value{BytesV{S: r.s}, IfaceV{}}}
 		}
 		ok := in.uf("hex.dec.ok", 0, in.strTerms(s)...)
 		if in.branch(ok) {
